@@ -37,6 +37,22 @@ CASES = [
     ("uncommit", [["new", "-m", "a", "a"], ["!write", "f.txt", "1\n"], ["refresh"], ["commit"]],
      ["uncommit", "u"]),
     ("new", [["new", "-m", "a", "a"]], ["new", "-m", "n", "n"]),
+    # the commands the model gained later: one or two transactions each, pops and pushes inside
+    ("edit", [["new", "-m", "a", "a"], ["!write", "f.txt", "1\n"], ["refresh"], ["new", "-m", "b", "b"],
+              ["!write", "g.txt", "2\n"], ["refresh"]], ["edit", "-m", "reworded", "a"]),
+    ("squash", [["new", "-m", "a", "a"], ["!write", "f.txt", "1\n"], ["refresh"], ["new", "-m", "b", "b"],
+                ["!write", "g.txt", "2\n"], ["refresh"]], ["squash", "-m", "both", "-n", "ab", "a", "b"]),
+    ("pick", [["new", "-m", "a", "a"], ["!write", "f.txt", "1\n"], ["refresh"], ["pop"],
+              ["new", "-m", "b", "b"], ["!write", "g.txt", "2\n"], ["refresh"]], ["pick", "--name", "cp", "a"]),
+    ("pick-noapply", [["new", "-m", "a", "a"], ["!write", "f.txt", "1\n"], ["refresh"]],
+     ["pick", "--noapply", "--name", "cp", "a"]),
+    ("uncommit-generated", [["new", "-m", "first one", "a"], ["!write", "f.txt", "1\n"], ["refresh"],
+                            ["new", "-m", "second one", "b"], ["!write", "g.txt", "2\n"], ["refresh"], ["commit", "-a"]],
+     ["uncommit", "-n", "2"]),
+    ("refresh-p", [["new", "-m", "a", "a"], ["!write", "f.txt", "1\n"], ["refresh"], ["new", "-m", "b", "b"],
+                   ["!write", "g.txt", "2\n"], ["refresh"], ["!write", "h.txt", "3\n"]], ["refresh", "-p", "a"]),
+    ("rebase", [["!write", "u.txt", "u\n"], ["!git", "commit", "-q", "-m", "upstream"],
+                ["new", "-m", "a", "a"], ["!write", "f.txt", "1\n"], ["refresh"]], ["rebase", "HEAD~2"]),
     # the first patch of a stack / the last patch leaving it: the state before resp. after is empty
     ("new-first", [], ["new", "-m", "n", "n"]),
     ("refresh", [["new", "-m", "a", "a"], ["!write", "f.txt", "1\n"]], ["refresh"]),
